@@ -41,10 +41,14 @@ def site_of(exc):
 def run_case(case):
     E = env.load()
     rnd = case_rng(case["seed"], case["idx"], "C15")
-    h = Hist(rnd, case["tier"], max_len=50)
+    spec0 = None
+    if case["idx"] % 8 == 5:
+        from .c17 import builder_spec
+        spec0 = builder_spec(rnd)
+    h = Hist(rnd, case["tier"], spec=spec0, max_len=50)
     C = {k: 0 for k in ("failed_edits", "state_restored_checks", "rebuild_comparisons_after_failure", "repeated_failures", "grouped_failures",
                         "risky_edits_accepted", "boundary_skipped", "build_failed", "ordinary_edits")}
-    classes = set(gen.topo_classes(h.spec))
+    classes = set(gen.topo_classes(h.spec)) | ({"builder_model"} if spec0 is not None else set())
     if h.build_error:
         C["build_failed"] = 1
         return {"counters": C, "classes": sorted(classes), "violations": []}
